@@ -3,6 +3,7 @@ package sim
 import (
 	"encoding/json"
 	"fmt"
+	"math/big"
 	"sort"
 	"time"
 
@@ -108,6 +109,10 @@ func (w *World) buildStake(v *View, cp CurParams) (*TxSpec, string) {
 		amt = 1
 	}
 	msg := posTypes.MsgStake{PubKey: a.Pub, Value: sdk.NewInt(amt)}
+	if w.R.Chance(3) {
+		msg.Value = hugeInt(w.R)
+		label = "stake-huge"
+	}
 	return w.honest(a, msg, cp), label
 }
 
@@ -187,7 +192,20 @@ func (w *World) buildSend(v *View, cp CurParams) (*TxSpec, string) {
 	if amt <= 0 {
 		amt = 1
 	}
-	return w.honest(a, posTypes.MsgSend{FromAddress: a.Addr, ToAddress: to, Amount: sdk.NewInt(amt)}, cp), "send"
+	amount := sdk.NewInt(amt)
+	if w.R.Chance(3) {
+		amount = hugeInt(w.R) // beyond int64
+	}
+	return w.honest(a, posTypes.MsgSend{FromAddress: a.Addr, ToAddress: to, Amount: amount}, cp), "send"
+}
+
+// hugeInt draws an amount that does not fit an int64 (2^63 .. 2^255-1).
+func hugeInt(r *Rand) sdk.Int {
+	x := new(big.Int).Lsh(big.NewInt(1), uint(63+r.Intn(192)))
+	if r.Bool() {
+		x.Sub(x, big.NewInt(1))
+	}
+	return sdk.NewIntFromBigInt(x)
 }
 
 func jsonOf(x interface{}) []byte {
@@ -389,6 +407,9 @@ func (w *World) buildDAO(v *View, cp CurParams) (*TxSpec, string) {
 		to = ModuleAddress(posTypes.StakedPoolName)
 	}
 	msg := govTypes.MsgDAOTransfer{FromAddress: sender.Addr, ToAddress: to, Amount: sdk.NewInt(amt), Action: action}
+	if w.R.Chance(4) {
+		msg.Amount = hugeInt(w.R)
+	}
 	return w.honest(sender, msg, cp), label
 }
 
